@@ -43,7 +43,7 @@ func ruleFR(w *world.World, r *report.RuleResult) {
 			break
 		}
 	}
-	recv := read.Common().Args[0]
+	recv, _ := frameReader(read, 0)
 	def, isInstr := recv.(ssa.Instruction)
 	switch {
 	case blocks == nil:
